@@ -372,6 +372,21 @@ impl Check for C16 {
                         return v;
                     }
                 }
+                // a damaged page is found by validate_crc however the device chunks its transfers
+                for page in [good.len() / 1024 - 1, good.len() / 2048] {
+                    let mut bad = good.clone();
+                    bad[page * 1024 + 500] ^= 0x04;
+                    for chunks in [&[][..], &case.chunks[..], &[4096, 1000][..]] {
+                        execs += 1;
+                        let dev = MemDev::with_data(bad.clone());
+                        dev.st.borrow_mut().chunks = chunks.iter().map(|c| *c as usize).collect();
+                        if matches!(guard(|| E57Reader::validate_crc(dev)), Ok(Ok(_))) {
+                            v.fail(format!("validate_crc accepts a file with a flipped bit in page {page} when the device serves transfers of {chunks:?} bytes"));
+                            v.execs = execs;
+                            return v;
+                        }
+                    }
+                }
                 execs += 1;
                 match run_static(&good, None, &case.chunks) {
                     Ok((_, o)) if o == base_static => {}
